@@ -41,10 +41,22 @@ EXPLANATION = (
     "allocate_buckets (upload) and add_lease (checker); write enabler from writekey and the foolscap write-enabler seed; writekey->readkey->"
     "storage index in the SSK/MDMF caps, key->storage index in CHK caps; derive_mutable_keys; dirnode child-cap "
     "key/salt and the mutable data key are derived identically by writer and reader; the convergent key is fed "
-    "(k, n, segsize, convergence secret) in the order the tag formats them; (6) the folded descriptors reproduce "
-    "the 25 known-answer vectors recorded in test_hashutil.py when evaluated with hashlib. "
+    "(k, n, segsize, convergence secret) in the order the tag formats them; the AES objects of mutable "
+    "publish/retrieve are keyed with the derived data key, the stored salt is the salt that was hashed and the read "
+    "key comes from the node's cap; the uploader's storage index is the stored storage_index_hash(key); the lease "
+    "secrets go to the server whose seed was hashed (allocate_buckets / add_lease receivers) under the storage index "
+    "that was hashed, and the mutable slot writer of a server is given (write enabler, renew, cancel) of that server "
+    "in wire order; (6) the folded descriptors reproduce "
+    "the 25 known-answer vectors recorded in test_hashutil.py when evaluated with hashlib; (7) the convergent key is "
+    "the digest of the convergence hasher and every block read from the uploadable's file handle is fed to that "
+    "hasher (CFG monitor: no block is dropped before the next read or before digest(), and some execution feeds it). "
     "Undecided: SHA-256/AES themselves, the values of runtime inputs (server seeds, RSA DER encodings), "
-    "base32 arithmetic.")
+    "base32 arithmetic; the input-validation guards and asserts of the derivation helpers (lengths of seeds, k/n "
+    "ranges - they only raise); the position of the file cursor when the convergent pass starts (f.seek(0)) and the "
+    "block size; the MAC appended to encrypted child write caps (no longer verified by any reader) and the "
+    "ciphertext slice [16:-32] of the dirnode reader (layout, not derivation); which encoding parameters are chosen "
+    "(only that the chosen tuple is what the key is fed); server selection and status reporting in the anchored "
+    "upload/checker functions.")
 TECHNIQUE = ("static analysis: symbolic folding of hashutil.py to derivation terms, compared with terms parsed from "
              "the specification documents and a compat-frozen table; call-site chains as normalised term trees")
 
@@ -1065,7 +1077,8 @@ def run(ctx: Context):
     with ctx.rule("C17.5", "R6/E6", "lease-secret chain at its call sites: SecretHolder hashes the lease secret read "
                   "from private/secret; upload and mutable filenode hash it with the file's storage index and then "
                   "with the server's lease seed; renew/cancel reach allocate_buckets / add_lease unswapped, to the server whose seed was "
-                  "hashed and under the storage index that was hashed", expected=20) as r:
+                  "hashed and under the storage index that was hashed; the mutable slot writers get (write enabler, "
+                  "renew, cancel) of their own server", expected=22) as r:
         # SecretHolder
         SH = "client:SecretHolder"
         init = idx.func(SH + ".__init__")
@@ -1293,6 +1306,58 @@ def run(ctx: Context):
                 r.site(fn, n.ast)
                 r.require(c == want, fn, fn.loc(n.ast), "%s returns %s ; specified %s" % (
                     short(fn), show_chain(c), show_chain(want)))
+
+        # mutable publish: the slot writer of a server gets (write enabler, renew, cancel) derived for THAT server, in the
+        # order of the wire protocol's `secrets` tuple
+        WR = {"MDMFSlotWriteProxy", "SDMFSlotWriteProxy"}
+        wps = None
+        for wname in sorted(WR):
+            wi = idx.func("mutable.layout:%s.__init__" % wname)
+            ps_ = first_positional_params(wi)
+            for need in ("storage_server", "secrets"):
+                if need not in ps_:
+                    raise AnchorVanished("%s.__init__ parameter %s" % (wname, need))
+            pos = (ps_.index("storage_server"), ps_.index("secrets"))
+            if wps is not None and wps != pos:
+                raise AnalysisError("the two slot writers take (storage_server, secrets) at different positions")
+            wps = pos
+            sc = store_chains(idx, wi, "self._secrets")
+            if not sc:
+                raise AnchorVanished("%s.__init__ does not store self._secrets" % wname)
+            for n, c in sc:
+                r.require(c == ("leaf", "secrets"), wi, wi.loc(n.ast), "%s._secrets is bound to %s" % (wname, show_chain(c)))
+        for meth in ("publish", "update"):
+            pf = idx.func("mutable.publish:Publish." + meth)
+            pfn = FlowNorm(pf)
+            dexp = def_exprs(pf)
+            seen = 0
+            for n in pf.cfg().nodes:
+                for c in node_calls(n):
+                    if not isinstance(c.func, ast.Name):
+                        continue
+                    srcs = [c.func] if c.func.id in WR else dexp.get(c.func.id, [])
+                    if not srcs or not all(isinstance(x, ast.Name) and x.id in WR for x in srcs):
+                        continue
+                    seen += 1
+                    r.site(pf, c, "slot writer secrets")
+                    a_srv = arg(c, wps[0], "storage_server")
+                    a_sec = arg(c, wps[1], "secrets")
+                    e_srv = pfn.resolve(n, a_srv) if a_srv is not None else None
+                    if not (isinstance(e_srv, ast.Call) and call_tail(e_srv) == "get_storage_server" and not e_srv.args
+                            and isinstance(e_srv.func, ast.Attribute)):
+                        r.violation(pf, pf.loc(c), "the slot writer's storage server is %s ; specified <server>.get_storage_server()" % (
+                            pfn.norm(n, a_srv) if a_srv is not None else None))
+                        continue
+                    srv = pfn.norm(n, e_srv.func.value)
+                    e_sec = pfn.resolve(n, a_sec) if a_sec is not None else None
+                    got = [pfn.norm(n, x) for x in e_sec.elts] if isinstance(e_sec, ast.Tuple) else [
+                        pfn.norm(n, a_sec) if a_sec is not None else None]
+                    want = [norm_src("self._node.%s(%s)" % (m, srv)) for m in
+                            ("get_write_enabler", "get_renewal_secret", "get_cancel_secret")]
+                    r.require(got == want, pf, pf.loc(c), "the slot writer for server %s is given the secrets (%s) ; specified (%s)" % (
+                        srv, ", ".join(map(str, got)), ", ".join(want)))
+            if not seen:
+                raise AnchorVanished("Publish.%s no longer creates slot writers" % meth)
 
     with ctx.rule("C17.6", "R6/E6", "key chains: writekey->readkey->storage index in writeable SSK/MDMF caps, "
                   "readkey->storage index in read-only caps, key->storage index in CHK caps and at upload; "
